@@ -110,6 +110,12 @@ theorem kernel_archived_basics (prof : Profile) (d : Dec) :
     Gen.K.decimal_coefficient prof d = .ok d.coeff ∧ Gen.K.decimal_n_frac_digits prof d = .ok d.nfrac :=
   ⟨rfl, rfl, rfl, rfl, rfl, rfl, rfl, rfl⟩
 
+/-- the two layouts of an archived Decimal, as extracted from src/lib.rs on this run: the derived one (features rkyv without
+    packed: rkyv's derive mirrors the fields of `Decimal`) and the hand-written `#[repr(C, packed)]` mirror -/
+theorem rkyv_layout :
+    Gen.DECIMAL_FIELDS = [("coeff", "i128"), ("n_frac_digits", "u8")] ∧ Gen.ARCHIVED_FIELDS = Gen.DECIMAL_FIELDS ∧
+    Gen.RKYV_DERIVES = ["Archive", "Serialize", "Deserialize"] := by decide
+
 /-- archiving (what `Archive::resolve` writes, after `Serialize` succeeded) followed by `Deserialize` is the identity -/
 theorem rkyv_roundtrip (prof : Profile) (d : Dec) :
     Gen.K.decimal_serialize prof d = .ok (.ok ()) ∧
